@@ -9,7 +9,7 @@ import sys,re
 out=open(sys.argv[1]).read(); src=open(sys.argv[2]).read().split('\n')
 blocks=re.split(r'\n(?=error|warning|note: )', out)
 for b in blocks:
-    if b.startswith('warning') or b.startswith('note: recommendation'): continue
+    if b.startswith('warning') or b.startswith('note: recommendation') or b.startswith('note: but type'): continue
     first=b.split('\n')[0]
     locs=re.findall(r'--> [^:\n]+\.rs:(\d+):(\d+)', b)
     print(first[:200])
